@@ -325,6 +325,9 @@ pub struct W {
     /// Per-run knob: every reply stream of this world has all its items - and its end - ready from
     /// the start (an empty one reports `None` on its very first poll).
     pub eager_all: bool,
+    /// Which instantiation of the `Service` trait's associated types the server world uses
+    /// (0 everyday, 1 dynamic, 2 zero-sized stream).
+    pub svc_variant: u8,
     /// Event numbers at which a service stream handed an item to the server.
     pub stream_item_seqs: Vec<u64>,
 }
@@ -373,6 +376,7 @@ impl W {
             fail: None,
             err_kind: None,
             eager_all: false,
+            svc_variant: 0,
             watches: Vec::new(),
             watch_class: "watch/changed-without-transport-read",
             watch_moved_class: "watch/reallocated-by-later-transport-read",
